@@ -29,7 +29,8 @@ open Compare Data
 theorem filter_spec (ev : Row → PValue) (data : Table) :
     filterData (fun r => some (ev r)) data = some (data.filter (fun r => truthy (ev r))) := by
   have := filterLoop_some (fun r => some (ev r)) data [] (fun _ _ => by simp)
-  simpa [filterData, keeps] using this
+  have hk : keeps (fun r => some (ev r)) = fun r => truthy (ev r) := by funext r; simp [keeps]
+  simpa [filterData, hk] using this
 
 /-- … for a partial evaluator: the call raises iff the evaluation raises on some row; otherwise it is the filter. -/
 theorem filter_raises_iff (eval : Row → Option PValue) (data : Table) :
@@ -188,7 +189,7 @@ theorem top_first_n_of_each_category (data : Table) (n : Nat) (fields : Option (
       have h2 : catKey fields x = catKey fields r := by simpa using hd
       rw [← h1, h2]
   simp only [hg]
-  rw [flatMap_single _ (nodup_dedup _) (catKey fields r) (fun k => (data.filter (fun x => decide (catKey fields x = k))).take n)]
+  rw [flatMap_single _ (nodup_dedup _) (catKey fields r) (fun _ => (data.filter (fun x => decide (catKey fields x = catKey fields r))).take n)]
   split
   · rfl
   · rename_i hk
